@@ -112,7 +112,7 @@ func runC20(tier string, _ []string) int {
 	c := vlib.NewCtx("C20", tier, "exploration")
 	vlib.SetPortBlock(20)
 	raceBuild := strings.Contains(os.Getenv("GORACE"), "log_path")
-	c.SetRule("per history (race-detector build): a fresh instance, 8-32 bus clients on their own connections issue ~150-400 operations against 3 nodes (a chain three deep in every other history, so that one write moves three ancestor hashes) x 2 types x 2 keys: acknowledged node-point and edge-point writes with unique (timestamp, value), node reads - directly and as entries of the parent's child listing - (split into one read per identity), reads with an undecodable payload, admin.storeVerify (every fourth history carries 120 ballast nodes and two connections that only ask for verification (admin.storeVerify), so that Stop meets verifications in flight; at rest after the load a burst of 260 pipelined 40 KiB requests on one connection must be answered one by one, and admin.storeVerify and admin.storeMaint are asked for at the same time); a fifth of the clients write through the library's SendNodePoints (1 s deadline), another fifth read and write through the HTTP API (so api handlers run concurrently with bus handlers); ~3% of the operations create a new leaf node below one of the nodes while its ancestors' hashes are moving, ~1% give one of the nodes being written a second placement (mirror); random 0-2 ms delays are injected at the store.afterNodeWrite / store.afterEdgeWrite hook sites (between database commit and rebroadcast/reply). Every call is recorded at the client boundary (call time before sending, return time after the reply, one monotonic clock); an unanswered operation stays open to the end of the history. Monitors: (1) porcupine linearizability of each identity's history against a max-timestamp register, (2) every request answered, (3) final content = newest accepted write per identity (C01) with consistent hashes (C03), (4) race detector reports involving simpleiot code, (5) Server.Stop during or after load: Run returns and the same file opens again with the acknowledged writes. distinct = (clients, stop mode, fingerprint class: overlapping pairs bucket, concurrent read/write pairs bucket)")
+	c.SetRule("per history (race-detector build): a fresh instance, 8-32 bus clients on their own connections issue ~150-400 operations against 3 nodes (a chain three deep in every other history, so that one write moves three ancestor hashes) x 2 types x 2 keys: acknowledged node-point and edge-point writes with unique (timestamp, value), node reads - directly and as entries of the parent's child listing - (split into one read per identity), reads with an undecodable payload, admin.storeVerify (every fourth history carries 120 ballast nodes and two connections that only ask for verification (admin.storeVerify), so that Stop meets verifications in flight; at rest after the load a burst of 260 pipelined 40 KiB requests on one connection must be answered one by one, and admin.storeVerify and admin.storeMaint are asked for at the same time); a fifth of the clients write through the library's SendNodePoints (1 s deadline), another fifth read and write through the HTTP API (so api handlers run concurrently with bus handlers); ~3% of the operations create a new leaf node below one of the nodes while its ancestors' hashes are moving, ~1% give one of the nodes being written a second placement (mirror); random 0-2 ms delays are injected at the store.afterNodeWrite / store.afterEdgeWrite hook sites (between database commit and rebroadcast/reply). One more instance is kept for 66 s (so that its once-a-minute jobs have run) and must then acknowledge writes, serve reads and hold consistent hashes as before. Every call is recorded at the client boundary (call time before sending, return time after the reply, one monotonic clock); an unanswered operation stays open to the end of the history. Monitors: (1) porcupine linearizability of each identity's history against a max-timestamp register, (2) every request answered, (3) final content = newest accepted write per identity (C01) with consistent hashes (C03), (4) race detector reports involving simpleiot code, (5) Server.Stop during or after load: Run returns and the same file opens again with the acknowledged writes. distinct = (clients, stop mode, fingerprint class: overlapping pairs bucket, concurrent read/write pairs bucket)")
 	c.Assume("schedules are sampled, not enumerated; a clean race-detector run means no report on the executed paths")
 	if !raceBuild {
 		c.Assume("this run was NOT built with -race")
@@ -135,6 +135,66 @@ func runC20(tier string, _ []string) int {
 	t0 := time.Now()
 	mono := func() int64 { return int64(time.Since(t0)) + 1 }
 	var tsCounter int64
+	// ---- an instance that has been up for more than a minute (its once-a-minute jobs have run: the
+	// store reports its cycle metrics through its own bus): requests are answered as they were before
+	aged := make(chan string, 1)
+	go func() {
+		in, err := vlib.StartInstance(vlib.InstCfg{ID: "c20-aged"})
+		if err != nil {
+			c.Inconclusive("aged instance: " + err.Error())
+			aged <- ""
+			return
+		}
+		defer in.Stop()
+		nc, err := in.Connect()
+		if err != nil {
+			aged <- ""
+			return
+		}
+		node := "aged-n1"
+		send := func(k int) (string, error) {
+			return vlib.SendAck(nc, vlib.NodeSubj(node), data.Points{{Type: "v", Key: fmt.Sprint(k % 3), Time: time.Unix(0, 1700000000e9+int64(k)), Value: float64(k), Origin: "aged"}})
+		}
+		if e, err := vlib.SendAck(nc, vlib.EdgeSubj(node, in.RootID), data.Points{{Type: data.PointTypeTombstone, Time: time.Unix(0, 1)}, {Type: data.PointTypeNodeType, Text: "variable"}}); err != nil || e != "" {
+			aged <- ""
+			return
+		}
+		k := 0
+		for ; k < 20; k++ { // while young
+			if e, err := send(k); err != nil || e != "" {
+				aged <- fmt.Sprintf("write %d on a young instance: %v %s", k, err, e)
+				return
+			}
+		}
+		for in.Age() < 66*time.Second {
+			time.Sleep(500 * time.Millisecond)
+		}
+		for round := 0; round < 3; round++ {
+			for q := 0; q < 15; q++ {
+				k++
+				if e, err := send(k); err != nil || e != "" {
+					aged <- fmt.Sprintf("write %d, %.0f s after the instance started, got no acknowledgement: %v %s (the first 20 writes, on the young instance, were acknowledged)", k, in.Age().Seconds(), err, e)
+					return
+				}
+			}
+			ns, err := client.GetNodes(nc, in.RootID, node, "", false)
+			if err != nil || len(ns) != 1 {
+				aged <- fmt.Sprintf("read %.0f s after the instance started: %v (%d nodes)", in.Age().Seconds(), err, len(ns))
+				return
+			}
+			if p, ok := ns[0].Points.Find("v", fmt.Sprint(k%3)); !ok || p.Value != float64(k) {
+				aged <- fmt.Sprintf("read %.0f s after the instance started does not show the last acknowledged write %d (found %v %v)", in.Age().Seconds(), k, ok, p.Value)
+				return
+			}
+			time.Sleep(2 * time.Second)
+		}
+		if bad, _, err := hashCheck(nc); err == nil && bad != "" {
+			aged <- "hashes on the aged instance: " + bad
+			return
+		}
+		c.Count("aged_instance_checked", 1)
+		aged <- ""
+	}()
 	vlib.Parallel(nHist, 4, func(i int) {
 		r := vlib.NewR(c.Seed, "c20", i)
 		in, err := vlib.StartInstance(vlib.InstCfg{ID: fmt.Sprintf("c20-%d", i), AuthToken: c20Token})
@@ -716,6 +776,9 @@ func runC20(tier string, _ []string) int {
 			c.Sample(map[string]any{"clients": nClients, "ops": len(hist), "overlapping_pairs": overlap, "concurrent_read_write_pairs": rw, "stop": stopMode, "partitions": len(parts)})
 		}
 	})
+	if res := <-aged; res != "" {
+		c.Violate("concurrency:request-never-answered:after-a-minute-of-uptime", res, map[string]any{"seed": c.Seed})
+	}
 	store.VerifSetHook(nil)
 	// (4) race detector
 	blocks, _ := raceReports()
